@@ -295,6 +295,7 @@ func (r *c08Run) run() {
 	e, c := r.e, r.e.C
 	r.checkBooks("setup")
 	r.targetedProbes()
+	r.softFailProbe()
 	if r.broken {
 		r.broken = false
 	}
@@ -651,6 +652,42 @@ func (r *c08Run) targetedProbes() {
 			r.checkBooksOn(ctx, "probe ["+t.Symbol+".approve; "+t.Symbol+".transfer; "+p.name+"]")
 			r.lastMixed = ""
 		}
+	}
+}
+
+// softFailProbe: an externally-owned ERC-20 that reports a failed transfer by returning false
+// (EIP-20 allows it) instead of reverting. Registered by governance, one honest conversion, then
+// conversions of more than the holder owns, in both forms; the books are checked after each.
+func (r *c08Run) softFailProbe() {
+	e, c := r.e, r.e.C
+	ctx := c.Branch()
+	er := c.EthTxOn(ctx, e.Deployer, nil, chain.InitCode(evmasm.SoftFailToken("SOFT")), nil, 0)
+	if er.Failed() {
+		return
+	}
+	tok := er.Contract
+	mint := append([]byte{0x40, 0xc1, 0x0f, 0x19}, append(common.LeftPadBytes(e.Caller.Hex().Bytes(), 32), common.LeftPadBytes(big.NewInt(1000).Bytes(), 32)...)...)
+	if er := c.EthTxOn(ctx, e.Deployer, &tok, mint, nil, 0); er.Failed() {
+		return
+	}
+	if res := c.MsgOn(ctx, &erc20types.MsgRegisterERC20{Authority: chain.GovAuthority(), Erc20Address: tok.Hex()}); !res.OK() {
+		r.logf("soft-fail token not registrable: %s", res.ErrString())
+		return
+	}
+	r.res.Count("soft_fail_token_probes", 1)
+	steps := []struct {
+		who    chain.Key
+		amount int64
+		honest bool
+	}{{e.Caller, 400, true}, {e.Other, 300, false}, {e.Caller, 601, false}, {e.Caller, 600, true}}
+	for _, st := range steps {
+		res := c.MsgOn(ctx, &erc20types.MsgConvertERC20{ContractAddress: tok.Hex(), Amount: sdkmath.NewInt(st.amount), Receiver: st.who.Bech32(), Sender: st.who.Hex().Hex()})
+		what := fmt.Sprintf("convert-erc20 of %d of a token that returns false on failure by %s (covered by its balance: %v) -> ok=%v %s", st.amount, st.who.Label, st.honest, res.OK(), short(res.ErrString()))
+		r.logf(what)
+		if st.honest != res.OK() {
+			r.res.Violate("C08/soft-failing-token/conversion-outcome", "%s", what)
+		}
+		r.checkBooksOn(ctx, what)
 	}
 }
 
